@@ -305,9 +305,11 @@ PROPS = {
         bounded=_mod("c18"),
         trusted=TB,
         assumed=["symbolize_bitvec denotes the world"],
-        explanation="Engine P proves formula_rank (least rank of the models, None if none), conditional_acceptance, is_ocf and "
-        "world_satisfies_conditionalization from the real "
-        "source; marginalisation, conditionalisation and TPO conversion are compared with definitions on all small rankings (bounded).",
+        lemmas=["SeenRank.step"],
+        explanation="Engine P proves formula_rank (least rank of the models, None if none), conditional_acceptance, is_ocf, "
+        "world_satisfies_conditionalization and both directions of the TPO conversion (tpo2ranks, ranks2tpo) from the real "
+        "source; marginalisation and conditionalisation (string manipulation of world names) are compared with definitions on all small "
+        "rankings, as is the TPO conversion end to end (bounded).",
     ),
     "C19": dict(
         level="other",
